@@ -195,7 +195,9 @@ func (f *fastRunner) runFast(r *ev.Run, idx int, minOps, maxOps int) {
 	var cur *op
 	defer func() {
 		if p := recover(); p != nil {
+			st.count("violations.fast."+panicSig(cur), 1)
 			r.Violation(panicSig(cur), fmt.Sprintf("panic while executing %s: %v\n%s", cur, p, debug.Stack()), witness())
+			finishSeq(r, st, lg, m, "fast", true)
 		}
 	}()
 	bad := false
